@@ -537,5 +537,32 @@ func (c *Config) validateLogging() error {
 	if c.Logging.Format != "" && !validLogFormats[c.Logging.Format] {
 		return fmt.Errorf("invalid log format: %s (valid: text, json, console)", c.Logging.Format)
 	}
+
+	// The configured names are set on every request that is forwarded: the transport refuses a request
+	// with an invalid header name, so every proxied request would fail.
+	if h := strings.TrimSpace(c.Logging.RequestID.Header); c.Logging.RequestID.Enabled && h != "" && !validHeaderName(h) {
+		return fmt.Errorf("logging request_id header %q is not a valid HTTP header name", h)
+	}
+	if h := strings.TrimSpace(c.Logging.Trace.Header); c.Logging.Trace.Enabled && h != "" && !validHeaderName(h) {
+		return fmt.Errorf("logging trace header %q is not a valid HTTP header name", h)
+	}
 	return nil
+}
+
+// validHeaderName reports whether s is an HTTP header field name (RFC 7230 token)
+func validHeaderName(s string) bool {
+	if s == "" {
+		return false
+	}
+	for i := 0; i < len(s); i++ {
+		c := s[i]
+		switch {
+		case 'a' <= c && c <= 'z', 'A' <= c && c <= 'Z', '0' <= c && c <= '9':
+		case c == '!' || c == '#' || c == '$' || c == '%' || c == '&' || c == '\'' || c == '*' || c == '+' ||
+			c == '-' || c == '.' || c == '^' || c == '_' || c == '`' || c == '|' || c == '~':
+		default:
+			return false
+		}
+	}
+	return true
 }
